@@ -46,6 +46,7 @@ def reference(workload: str, events: bool = False, pre: Callable[[World], None] 
             "steps": steps,
             "errors": list(w.handler_errors),
             "audit": w.audit(),
+            "twin": w.twin_summary(),
         }
     finally:
         w.close()
@@ -815,6 +816,12 @@ def schedule_run(
                     q = quiescent_ok(snap)
                     if q is not None:
                         return P.fail("%s/schedule/%s/not_quiescent/%s" % (prop, workload, state_sig(summ)), {"why": q, **info})
+                if twin is not None:
+                    # the other live execution ends exactly as it does next to an undisturbed run of this one
+                    want_twin = (ref or reference(workload, events, pre=ref_pre, tag=ref_tag))["twin"]
+                    got_twin = w.twin_summary()
+                    if got_twin != want_twin:
+                        return P.fail("%s/schedule/%s/other_execution_affected/%s" % (prop, workload, (got_twin or {}).get("workflow")), {"workload": workload, "twin": twin, "expected": want_twin, "got": got_twin, "trace": trace[:30], "injected": injected})
                 if post is not None:
                     bad = post(w, snap, {"trace": trace, "injected": injected, "ref": ref})
                     if bad is not None:
